@@ -183,4 +183,17 @@ theorem source_exNewContextMessage : GeneratedSrc.exNewContextMessage = Expected
 theorem source_ctxSubscribe : GeneratedSrc.ctxSubscribe = ExpectedSrc.ctxSubscribe := by rfl
 theorem source_ctxAcceptsMessage : GeneratedSrc.ctxAcceptsMessage = ExpectedSrc.ctxAcceptsMessage := by rfl
 
+
+/-! ### functions the model's assumptions rest on (construction, wiring, surrounding calls) are unchanged -/
+theorem source_exInitMessaging : GeneratedSrc.exInitMessaging = ExpectedSrc.exInitMessaging := by rfl
+theorem source_exInitMessagingKafka : GeneratedSrc.exInitMessagingKafka = ExpectedSrc.exInitMessagingKafka := by rfl
+theorem source_ctxInit : GeneratedSrc.ctxInit = ExpectedSrc.ctxInit := by rfl
+theorem source_exNewMessage : GeneratedSrc.exNewMessage = ExpectedSrc.exNewMessage := by rfl
+theorem source_exFindNodeByID : GeneratedSrc.exFindNodeByID = ExpectedSrc.exFindNodeByID := by rfl
+theorem source_exFindMatchingNode : GeneratedSrc.exFindMatchingNode = ExpectedSrc.exFindMatchingNode := by rfl
+theorem source_exGetSource : GeneratedSrc.exGetSource = ExpectedSrc.exGetSource := by rfl
+theorem source_ctxSendMessage : GeneratedSrc.ctxSendMessage = ExpectedSrc.ctxSendMessage := by rfl
+theorem source_ctxAckMessage : GeneratedSrc.ctxAckMessage = ExpectedSrc.ctxAckMessage := by rfl
+theorem source_ctxConfigureMessaging : GeneratedSrc.ctxConfigureMessaging = ExpectedSrc.ctxConfigureMessaging := by rfl
+
 end Firebolt.C11
